@@ -98,6 +98,7 @@ def setup_reduce_envs(c, node, fam):
 
 
 class ReduceH(Harness):
+    xcheck = 2
     name = "AtLeast.reduce"
     function = "AtLeast.reduce"
 
